@@ -49,6 +49,7 @@ ASSUMPTIONS = [
 ]
 VEC_NOTE = ' Vector-level units (vec.*) fix the capacity and block size of the pre-state to enumerated constants (CBMC 6.11 needs minutes and tens of GB for objects of symbolic size that are read and written byte-wise, seconds for constant-size ones); size(), contents, offsets, counts, allocator ids stay symbolic. They are reported as bounded stand-ins and not counted as proved.'
 PROPERTY_META = {
+    'C20': dict(claimed=False, na_reason='Well-formedness of a template instantiation (does every documented operation compile for every kind of parameter list) is decided by the C++ type checker at instantiation time: there is no function body to put under contract and no pre/postcondition that can say that an overload resolves or a static_assert holds, so contract-based deductive verification of the code has nothing to attach to. The instantiation TUs of this framework do compile a matrix of lists x operations as a by-product (that is how defect D9 was found), but that is the compiler deciding, not a contract; see DESIGN.md section 10.'),
     'C01': dict(claimed=True, level='proof',
                 text='Contracts on the real vector operations (constructor, emplace_back, pop_back, erase, clear, reserve, operator[], size/empty/capacity) state the sequence model on the representation: new size, which table entry/stride each element has, that untouched elements keep address and bytes, that shifted elements keep their bytes (witness byte), that the representation invariant WF_VAR/WF_FIXED is preserved; emplace_at is proved (unbounded) to store every argument at its layout position (store/load round trip at a witness byte).',
                 note='Layout/store level is a proof for enumerated parameter lists.' + VEC_NOTE + ' std::transform over the address table is verified with a bounded unwinding (<= 6 entries) and used by contract in erase. Also counted here: the conversion contracts (conv.*: the stored item equals the stored type constructed from the source item, bounded to 4 items) and, for lists of non-trivial value types, the erase clause that relocated objects are move-constructed rather than byte-copied. Other aspects of non-trivial value types: see C06.',
